@@ -37,7 +37,7 @@ import numpy as np
 from . import common
 
 PID = "C16"
-HARNESS_VERSION = 3
+HARNESS_VERSION = 4
 MYFILES = ["State/Memoize.v", "Corr/CheckC16.v"]
 
 # No known findings: both historical defects (shared store, aliasing of returned
@@ -172,6 +172,35 @@ def prop_bound(A, cplx, d, v):
     return (A @ t if d == "F" else A.T @ t) * 1.5 + 1e-9
 
 
+def explained(A, cplx, d, v, r):
+    """Is r = Op x' for SOME x' element-wise close to v (|x'_j - v_j| <= atol + rtol |v_j|)?
+    Necessary conditions only (never a false alarm): (1) the componentwise bound, (2) feasibility
+    of (Op diag(t)) z = r - Op v with z in the box [-1,1]^n (for complex entries: the box that
+    contains the disc), decided by bounded least squares; r - Op v is formed in floating point
+    (exact for the integer data used here)."""
+    Mx = np.asarray(A, dtype=np.complex128 if cplx else np.float64)
+    Mx = Mx if d == "F" else Mx.conj().T
+    e = Mx @ v
+    rhs = r - e
+    scale = np.abs(Mx).max(initial=0) * np.abs(v).max(initial=0) * max(1, len(v))
+    slack = 1e-9 + 1e-12 * scale
+    if np.abs(rhs).max(initial=0) <= slack:
+        return True
+    if not np.all(np.abs(rhs) <= prop_bound(A, cplx, d, v)):
+        return False
+    from scipy.optimize import lsq_linear
+    t = 1.5 * (ATOL + RTOL * np.abs(v))
+    Mt = Mx * t[None, :]
+    if cplx:
+        Mr = np.block([[Mt.real, -Mt.imag], [Mt.imag, Mt.real]])
+        b = np.concatenate([rhs.real, rhs.imag])
+    else:
+        Mr, b = Mt, rhs
+    sol = lsq_linear(Mr, b, bounds=(-1.0, 1.0), method="bvls", tol=1e-14, max_iter=500)
+    res = np.abs(Mr @ sol.x - b).max(initial=0)
+    return bool(res <= 10 * slack + 1e-7 * np.abs(b).max(initial=0))
+
+
 def judge(A, cplx, maxn, hist, run=None):
     """The property on the implementation.  Returns None or (call index, reason)."""
     if run is None:
@@ -183,7 +212,7 @@ def judge(A, cplx, maxn, hist, run=None):
             continue
         r, cnt, ln, attr, v, d = run.obs[j]
         e = bare(A, cplx, d, v)
-        if r.shape != e.shape or not np.all(np.abs(r - e) <= prop_bound(A, cplx, d, v)):
+        if r.shape != e.shape or not explained(A, cplx, d, v, r):
             return (j, "call %d (%s of %s) returned %s, the bare operator gives %s"
                     % (j, "matvec" if d == "F" else "rmatvec", _fmt(v), _fmt(r), _fmt(e)))
         if ln > maxn:
@@ -200,7 +229,7 @@ def judge(A, cplx, maxn, hist, run=None):
 
 
 def _fmt(v):
-    return "[" + ", ".join(("%g%+gj" % (t.real, t.imag)) if np.iscomplexobj(v) else ("%g" % t) for t in np.ravel(v)) + "]"
+    return "[" + ", ".join(("%.12g%+.12gj" % (t.real, t.imag)) if np.iscomplexobj(v) else ("%.12g" % t) for t in np.ravel(v)) + "]"
 
 
 def normalise(hist):
@@ -294,6 +323,14 @@ PROBES = [
      [("c", "A", "in0", "out0", [1, 1]), ("c", "F", "in1", "out1", [1, 1])]),
     ("square complex operator: same vector as model then as data", PROBE_SQC, True,
      [("c", "F", "in0", "out0", [1, 1j]), ("c", "A", "in1", "out1", [1, 1j])]),
+    ("large dynamic range: inputs equal in a dominant entry, 100% apart in a small one (matvec [2^24,1]; matvec [2^24,2])", PROBE_A, False,
+     [("c", "F", "in0", "out0", [2 ** 24, 1]), ("c", "F", "in1", "out1", [2 ** 24, 2])]),
+    ("large dynamic range, adjoint (rmatvec [2^24,1,0]; rmatvec [2^24,2,0])", PROBE_A, False,
+     [("c", "A", "in0", "out0", [2 ** 24, 1, 0]), ("c", "A", "in1", "out1", [2 ** 24, 2, 0])]),
+    ("large dynamic range, complex (matvec [2^27 i, 1]; matvec [2^27 i, 1+i])", PROBE_SQC, True,
+     [("c", "F", "in0", "out0", [2 ** 27 * 1j, 1]), ("c", "F", "in1", "out1", [2 ** 27 * 1j, 1 + 1j])]),
+    ("large dynamic range, complex adjoint", PROBE_SQC, True,
+     [("c", "A", "in0", "out0", [1j, 2 ** 27]), ("c", "A", "in1", "out1", [2j, 2 ** 27])]),
 ]
 
 
@@ -323,7 +360,7 @@ def _ivec(r, n, cplx, lo=-3, hi=3):
             return np.array(v, dtype=np.complex128 if cplx else np.float64)
 
 
-def gen_history(r, A, cplx, maxn, L, mode, with_mut):
+def gen_history(r, A, cplx, maxn, L, mode, with_mut, dyn=False):
     """Generate a caller program while running it (inputs may be arrays returned earlier).
     Returns (history, stats)."""
     m, n = A.shape
@@ -337,14 +374,34 @@ def gen_history(r, A, cplx, maxn, L, mode, with_mut):
         if cplx and r.random() < 0.5:
             p = p * 1j
         return v + eps * p
-    x1, x2 = _ivec(r, n, cplx), _ivec(r, n, cplx)
-    base = {"xa": x1, "xb": x2, "xc": pert(x1, 1e-9), "xd": pert(x1, 1e-3), "xe": pert(x2, 1e-9)}
+    def dynpair(k):
+        """two vectors equal in one dominant entry (2^24..2^30), 100% apart in one small entry:
+        element-wise clearly NOT close, although |difference| << rtol * |vector| in norm."""
+        v = _ivec(r, k, cplx)
+        pb = r.randrange(k)
+        ps = r.choice([j for j in range(k) if j != pb])
+        big = float(2 ** r.choice([24, 27, 30])) * r.choice([1, -1])
+        v[pb] = big * (r.choice([1, 1j, 1 + 1j]) if cplx else 1)
+        v[ps] = r.choice([1, -1, 1j, 2]) if cplx else r.choice([1, -1, 2])
+        w = v.copy()
+        w[ps] = 2 * v[ps] if r.random() < 0.7 else 0
+        return v, w
+
+    def alphabet(k, tag):
+        if dyn and k >= 2:
+            v1, w1 = dynpair(k)
+            v2, w2 = dynpair(k)
+            return {tag + "a": v1, tag + "b": w1, tag + "c": v2, tag + "d": w2, tag + "e": _ivec(r, k, cplx)}
+        x1, x2 = _ivec(r, k, cplx), _ivec(r, k, cplx)
+        return {tag + "a": x1, tag + "b": x2, tag + "c": pert(x1, 1e-9), tag + "d": pert(x1, 1e-3), tag + "e": pert(x2, 1e-9)}
+    base = alphabet(n, "x")
     if square:
         alpha = {"F": sorted(base), "A": sorted(base)}          # COMMON alphabet: the same vectors as model and as data
     else:
-        y1, y2 = _ivec(r, m, cplx), _ivec(r, m, cplx)
-        base.update({"ya": y1, "yb": y2, "yc": pert(y1, 1e-9), "yd": pert(y1, 1e-3)})
-        alpha = {"F": ["xa", "xb", "xc", "xd", "xe"], "A": ["ya", "yb", "yc", "yd"]}
+        ya = alphabet(m, "y")
+        base.update(ya)
+        alpha = {"F": sorted(k for k in base if k[0] == "x"), "A": sorted(ya)}
+    lim_feed, lim_write = (1e13, 1e14) if dyn else (1e4, 1e6)
     run = Runner(A, cplx, maxn)
     hist = []
     st = {"fed": 0, "fed_same_object": 0, "near": 0, "w_ret": 0, "w_in": 0, "reused_objects": 0, "both_spaces": 0}
@@ -374,7 +431,7 @@ def gen_history(r, A, cplx, maxn, L, mode, with_mut):
                 w = cur * 3; w[0] -= 1
             else:
                 w = np.zeros_like(cur)
-            if np.abs(w).max(initial=0) > 1e6:
+            if np.abs(w).max(initial=0) > lim_write:
                 continue
             op = ("w", name, w.copy())
             if run.step(op):
@@ -385,7 +442,7 @@ def gen_history(r, A, cplx, maxn, L, mode, with_mut):
         need = n if d == "F" else m
         op = None
         if r.random() < 0.35:
-            cands = [nm for nm, k in run.ret_of.items() if run.pool[nm].shape == (need,) and np.abs(run.pool[nm]).max(initial=0) < 1e4]
+            cands = [nm for nm, k in run.ret_of.items() if run.pool[nm].shape == (need,) and np.abs(run.pool[nm]).max(initial=0) < lim_feed]
             if cands:
                 nm = r.choice(sorted(cands))
                 st["fed"] += 1
@@ -550,13 +607,13 @@ def main(tier):
         cases.append({"id": len(cases), "A": A, "cplx": cplx, "maxn": 3, "hist": hp, "out": run.obs, "coq": run.coq,
                       "model": model, "mode": "M", "run": run})
     nfixed = len(cases)
-    R.notes.append("canonical probes (%d: mixed directions, aliasing of returned / input arrays, square operator with a common vector): %s"
+    R.notes.append("canonical probes (%d: mixed directions, aliasing of returned / input arrays, square operator with a common vector, large dynamic range): %s"
                    % (nfixed, "all transparent" if not nprobe_fail else "%d FAILED" % nprobe_fail))
 
     nh, Lmax = (300, 8) if tier == "quick" else (5000, 20)
     discarded = 0
     dist = {"real": 0, "complex": 0, "square": 0, "rect": 0, "mode_F": 0, "mode_A": 0, "mode_mixed": 0,
-            "with_in_place_writes": 0, "writes_to_returned_arrays": 0, "writes_to_input_arrays": 0,
+            "large_dynamic_range_alphabet": 0, "with_in_place_writes": 0, "writes_to_returned_arrays": 0, "writes_to_input_arrays": 0,
             "fed_back_inputs": 0, "fed_back_as_same_object": 0, "reused_input_objects": 0, "near_equal_inputs": 0,
             "alphabet_vectors_used_as_model_and_data": 0, "hits": 0, "evictions": 0, "calls": 0}
     maxn_count = {}
@@ -572,7 +629,8 @@ def main(tier):
             mode = "M"
         with_mut = r.random() < 0.55
         L = r.randint(2, Lmax)
-        hist, st = gen_history(r, A, cplx, maxn, L, mode, with_mut)
+        dyn = r.random() < 0.3
+        hist, st = gen_history(r, A, cplx, maxn, L, mode, with_mut, dyn)
         run = execute(A, cplx, maxn, hist)
         if not run.obs or borderline(A, cplx, run):
             discarded += 1
@@ -581,6 +639,7 @@ def main(tier):
         cases.append({"id": len(cases), "A": A, "cplx": cplx, "maxn": maxn, "hist": hist, "out": obs, "coq": run.coq,
                       "model": model, "mode": mode, "run": run})
         dist["complex" if cplx else "real"] += 1
+        dist["large_dynamic_range_alphabet"] += 1 if dyn else 0
         dist["square" if A.shape[0] == A.shape[1] else "rect"] += 1
         dist["mode_" + {"F": "F", "A": "A", "M": "mixed"}[mode]] += 1
         dist["with_in_place_writes"] += 1 if (st["w_ret"] + st["w_in"]) else 0
